@@ -161,6 +161,54 @@ Proof. apply b_is_hyp. Qed.
 
 Lemma if_app_M {A} (c : bool) (f g : M machine A) s : (if c then f else g) s = if c then f s else g s.
 Proof. destruct c; reflexivity. Qed.
+(* the same fields written with shifts and masks instead of the bits_ops helpers *)
+Lemma land_shiftr_ones x l k : 0 <= l -> 0 < k -> Z.land (Z.shiftr x l) (Z.ones k) = bits x (l + k - 1) l.
+Proof.
+  intros Hl Hk. rewrite Z.land_ones by lia. rewrite Z.shiftr_div_pow2 by lia. unfold bits. f_equal. f_equal. lia.
+Qed.
+Lemma land_ones_bits x k : 0 < k -> Z.land x (Z.ones k) = bits x (k - 1) 0.
+Proof. intros Hk. rewrite Z.land_ones by lia. unfold bits. rewrite Z.pow_0_r, Z.div_1_r. f_equal. f_equal. lia. Qed.
+Lemma lor_add a b n : 0 <= n -> 0 <= b < 2 ^ n -> a mod 2 ^ n = 0 -> Z.lor a b = a + b.
+Proof.
+  intros Hn Hb Ha. symmetry. rewrite <- Z.lxor_lor; [apply Z.add_nocarry_lxor|]; apply Z.bits_inj'; intros j Hj;
+    rewrite Z.land_spec, Z.bits_0; destruct (Z.lt_ge_cases j n) as [Hlt|Hge].
+  - rewrite <- (Z.mod_pow2_bits_low a n j) by lia. rewrite Ha, Z.bits_0. reflexivity.
+  - destruct (Z.eq_dec b 0) as [->|Hnz]; [rewrite Z.bits_0; apply andb_false_r|].
+    rewrite (Z.bits_above_log2 b j); [apply andb_false_r|lia|]. apply Z.lt_le_trans with n; [|exact Hge]. apply Z.log2_lt_pow2; lia.
+  - rewrite <- (Z.mod_pow2_bits_low a n j) by lia. rewrite Ha, Z.bits_0. reflexivity.
+  - destruct (Z.eq_dec b 0) as [->|Hnz]; [rewrite Z.bits_0; apply andb_false_r|].
+    rewrite (Z.bits_above_log2 b j); [apply andb_false_r|lia|]. apply Z.lt_le_trans with n; [|exact Hge]. apply Z.log2_lt_pow2; lia.
+Qed.
+Ltac mask_fields :=
+  repeat match goal with
+  | |- context[Z.land (Z.shiftr ?x ?l) ?m] =>
+      let k := eval cbv in (Z.log2 (m + 1)) in
+      let ok := eval cbv in (Z.ones k =? m) in
+      lazymatch ok with true => idtac | false => fail end;
+      change (Z.land (Z.shiftr x l) m) with (Z.land (Z.shiftr x l) (Z.ones k));
+      rewrite (land_shiftr_ones x l k) by lia;
+      let h := eval cbv in (l + k - 1) in change (l + k - 1) with h
+  | |- context[Z.land ?x ?m] =>
+      lazymatch x with Z.shiftr _ _ => fail | _ => idtac end;
+      let k := eval cbv in (Z.log2 (m + 1)) in
+      let ok := eval cbv in ((Z.ones k =? m) && (0 <? k)) in
+      lazymatch ok with true => idtac | false => fail end;
+      change (Z.land x m) with (Z.land x (Z.ones k));
+      rewrite (land_ones_bits x k) by lia;
+      let h := eval cbv in (k - 1) in change (k - 1) with h
+  end;
+  repeat match goal with |- context[bits ?x ?i ?i] => rewrite <- (bit_bits_eq x i) by lia end.
+Ltac lor_fields :=
+  repeat match goal with
+  | |- context[Z.lor ?a ?b] =>
+      first [ rewrite (lor_add a b 1) by (try split; lia) | rewrite (lor_add a b 2) by (try split; lia)
+            | rewrite (lor_add a b 3) by (try split; lia) | rewrite (lor_add a b 4) by (try split; lia)
+            | rewrite (lor_add a b 5) by (try split; lia) | rewrite (lor_add a b 6) by (try split; lia)
+            | rewrite (lor_add a b 7) by (try split; lia) | rewrite (lor_add a b 8) by (try split; lia)
+            | rewrite (lor_add a b 10) by (try split; lia) | rewrite (lor_add a b 11) by (try split; lia)
+            | rewrite (lor_add a b 12) by (try split; lia) | rewrite (lor_add a b 16) by (try split; lia) ]
+  end.
+
 Lemma cons_eq (a b : Z) l l' : a = b -> l = l' -> a :: l = b :: l'.
 Proof. intros -> ->. reflexivity. Qed.
 Lemma ok_some_eq (c : Z) (l l' : list Z) (s : machine) : l = l' -> Ok (Some (c, l)) s = Ok (Some (c, l')) s.
@@ -207,6 +255,7 @@ Ltac field_of_field :=
 
 Ltac ops_norm :=
   rewrite ?substring_bits, ?bit_at_bit by lia;
+  mask_fields;
   rewrite ?chain_spec, ?o_shiftl, ?o_chunk by lia;
   rewrite ?set_bit_zero, ?set_bit_fresh, ?to_unsigned_small by lia;
   rewrite ?if_app_M;
@@ -301,6 +350,7 @@ Ltac ops_pre f :=
   unfold fb_out, fb_plain, fb_opt, fb_res, fb_res_opt, fb_m, fb_m_opt; unfold f; cbv zeta;
   ops_norm;
   match goal with W : 0 <= ?w < 2 ^ _ |- _ => pose_ranges w end;
+  lor_fields;
   repeat (progress (ops_helpers; ops_norm; ops_if)).
 Ltac ops_tac f := ops_pre f; ops_close.
 
@@ -327,7 +377,7 @@ Ltac safe_split :=
 Ltac safe_tac f :=
   intros;
   unfold fb_out, fb_plain, fb_opt, fb_res, fb_res_opt, fb_m, fb_m_opt; unfold f; cbv zeta;
-  ops_norm; pose_all_ranges;
+  ops_norm; pose_all_ranges; lor_fields;
   repeat (progress (ops_helpers; ops_norm));
   safe_split; rewrite ?o_ret; cbn [raise];
   first [ apply fb_safe_ok | apply fb_safe_undef ].
